@@ -1049,4 +1049,114 @@ deflated = Unit(
                  'that the solver returns the solution of the original system (convergence)', 'more deflation vectors than the bound'],
 )
 
-UNITS = [cpr_fsp, schur_counts, schur_fill, schur_blocks, schur_scatter, deflated]
+
+# =====================================================================================================
+# 4. cpr::partial_update / update_transfer (scalar instantiation): call level, provenance of S and Fpp
+# =====================================================================================================
+PU_T = r"""
+#include <stddef.h>
+#define CXC_NO_VALUES 1
+int g_thrown;
+#ifdef CXC_CANARY
+#define CANARY(name) __CPROVER_assert(0, "canary " name)
+#define ENSURES(c, msg) ((void)0)
+#else
+#define CANARY(name) ((void)0)
+#define ENSURES(c, msg) __CPROVER_assert(c, "ensures: " msg)
+#endif
+/* provenance view: every object carries the id of what it was built from and how */
+enum { H_NONE = 0, H_INPUT, H_BUILTIN_COPY, H_SPRECOND, H_FSP_FPP, H_FSP_APP, H_BACKEND_COPY };
+typedef struct mat { int how; const struct mat *from; int flag; } mat;
+typedef struct obj { int how; const mat *from; } obj;
+typedef struct cpr_params { int block_size; size_t active_rows; int sprecond; } cpr_params;
+/* members of cpr<> in declaration order: prm; n, np; P, S; Fpp, Scatter; rs, rp, xp (the work vectors are not touched here) */
+typedef struct cpr { cpr_params prm; size_t n, np; obj *P, *S; mat *Fpp, *Scatter; } cpr;
+typedef mat build_matrix; typedef int backend_params;
+static mat g_pool[4]; static int g_npool; static obj g_opool[2]; static int g_nopool;
+int g_fsp_calls, g_sprecond_calls, g_order_ok = 1;
+static mat *new_mat(int how, const mat *from, int flag) { mat *m = &g_pool[g_npool < 4 ? g_npool : 3]; g_npool++; m->how = how; m->from = from; m->flag = flag; return m; }
+/* std::make_shared<build_matrix>(K): copy of the user's matrix in the builtin format */
+static mat *mk_builtin_copy(const mat *K) { return new_mat(H_BUILTIN_COPY, K, 0); }
+/* std::make_shared<SPrecond>(K, prm.sprecond, bprm) */
+static obj *mk_sprecond(const mat *K, int prm, backend_params bprm) { (void)prm; (void)bprm; obj *o = &g_opool[g_nopool < 2 ? g_nopool : 1]; g_nopool++; g_sprecond_calls++; o->how = H_SPRECOND; o->from = K; return o; }
+typedef struct fsp_result { mat *fpp, *App; } fsp_result;
+/* first_scalar_pass(K, get_app): contract of unit cpr_first_scalar_pass -- Fpp is a function of K alone (whatever get_app), App only with get_app */
+static fsp_result first_scalar_pass(cpr *self, const mat *K, _Bool get_app)
+{
+  (void)self; g_fsp_calls++;
+  fsp_result r; r.fpp = new_mat(H_FSP_FPP, K, get_app); r.App = get_app ? new_mat(H_FSP_APP, K, 1) : 0;
+  return r;
+}
+#define GET0(r) ((r).fpp)
+static mat *copy_matrix(const mat *m, backend_params bprm) { (void)bprm; return new_mat(H_BACKEND_COPY, m, 0); }
+#define SCALAR_TAG 1
+static void f_update_transfer(cpr *self, const mat *K, const backend_params bprm, int tag)
+{
+  (void)tag;
+/*@CUT:transfer@*/
+}
+#define update_transfer(K, bprm, tag) f_update_transfer(self, K, bprm, tag)
+static void f_partial_update(cpr *self, const mat *K_p, _Bool update_transfer_ops, const backend_params bprm)
+{
+#define K (*K_p)
+/*@CUT:body@*/
+#undef K
+}
+/* contract (enforced by the harness below):
+ *   ensures  S is a NEW global preconditioner built from a builtin copy of the given K (exactly one construction);
+ *            update_transfer_ops: Fpp = backend copy of first_scalar_pass(that copy, get_app = false).fpp, exactly one pass;
+ *            otherwise Fpp is the old object; P (pressure preconditioner), Scatter, prm, n are the old objects in both cases
+ *   hence    with an unchanged matrix K: S and Fpp are rebuilt from the same data by the same functions, P and Scatter are kept */
+_Bool nondet_bool(void); int nondet_int(void);
+void h_partial_update(void)
+{
+  cpr me; cpr *self = &me;
+  mat K, Fpp0, Scatter0; obj P0, S0;
+  K.how = H_INPUT; K.from = 0; K.flag = 0;
+  self->P = &P0; self->S = &S0; self->Fpp = &Fpp0; self->Scatter = &Scatter0;
+  self->prm.block_size = nondet_int(); self->prm.sprecond = nondet_int(); self->n = 7; self->np = 3;
+  const cpr_params prm0 = self->prm;
+  const _Bool flag = nondet_bool();
+  f_partial_update(self, &K, flag, 0);
+  ENSURES(g_sprecond_calls == 1 && self->S != &S0 && self->S->how == H_SPRECOND && self->S->from != 0
+          && self->S->from->how == H_BUILTIN_COPY && self->S->from->from == &K,
+          "partial_update: the global preconditioner S is rebuilt (once) from a builtin copy of the given matrix");
+  if (flag) {
+    ENSURES(g_fsp_calls == 1 && self->Fpp != &Fpp0 && self->Fpp->how == H_BACKEND_COPY && self->Fpp->from != 0 && self->Fpp->from->how == H_FSP_FPP
+            && self->Fpp->from->flag == 0 && self->Fpp->from->from == self->S->from,
+            "partial_update(update_transfer_ops): Fpp is the backend copy of first_scalar_pass(K copy, get_app = false).fpp of the same matrix S was built from");
+  } else {
+    ENSURES(g_fsp_calls == 0 && self->Fpp == &Fpp0, "partial_update(no transfer update): Fpp is kept");
+  }
+  ENSURES(self->P == &P0 && self->Scatter == &Scatter0 && self->n == 7 && self->prm.block_size == prm0.block_size
+          && self->prm.sprecond == prm0.sprecond && self->prm.active_rows == prm0.active_rows,
+          "partial_update: the pressure preconditioner P, Scatter, n and prm are kept");
+  ENSURES(g_npool <= 4 && g_nopool <= 2, "bound artefact: object pool");
+  CANARY("harness.end");
+}
+"""
+PU_MEMBERS = member_rules(['prm', 'n', 'np', 'P', 'S', 'Fpp', 'Scatter'])
+pu_cut = Cut(CPR, r'void partial_update\(\s*const Matrix &K,\s*bool update_transfer_ops = true,\s*const backend_params &bprm = backend_params\(\)\s*\)\s*(?=\{)',
+             rules=[Rule(r'std::integral_constant<bool, math::static_rows<value_type>::value == 1>\(\)', 'SCALAR_TAG', None, early=True,
+                         why='tag dispatch: scalar instantiation (static_rows<value_type> == 1)'),
+                    Rule(r'auto (\w+) = std_make_shared<build_matrix>\((\w+)\);', r'mat *\1 = mk_builtin_copy(&(\2));', None, why='R-auto / make_shared'),
+                    Rule(r'std_make_shared<SPrecond>\(', 'mk_sprecond(', None, why='make_shared')] + PU_MEMBERS)
+ut_cut = Cut(CPR, r'void update_transfer\(std::shared_ptr<build_matrix> K, const backend_params bprm, std::true_type\)\s*(?=\{)',
+             rules=[Rule(r'auto (\w+) = std_get<0>\(first_scalar_pass\(', r'mat *\1 = GET0(first_scalar_pass(self, ', None, why='R-auto / std::get<0> / member call'),
+                    Rule(r'backend_type_p::copy_matrix\(', 'copy_matrix(', None, why='R-ns')] + PU_MEMBERS)
+cpr_partial = Unit(
+    name='cpr_partial_update', props=['C18', 'C10'],
+    functions=['preconditioner::cpr::partial_update(K, update_transfer_ops, bprm)', 'preconditioner::cpr::update_transfer(K, bprm, std::true_type)'],
+    desc='partial update of CPR (scalar instantiation): S is rebuilt from the given matrix, Fpp = copy of first_scalar_pass(K, false).fpp when requested, '
+         'P / Scatter / prm are kept; with cpr_first_scalar_pass (Fpp is a function of K alone) an update with an unchanged matrix leaves every operator of apply() unchanged',
+    cuts={'body': pu_cut, 'transfer': ut_cut},
+    template=PU_T, entry='h_partial_update', mode='unwound', unwind='2', model='none',
+    bound_text='loop-free; all inputs symbolic (the only bound is the object pool of the harness)',
+    assumptions=['A-abs: make_shared<build_matrix>, make_shared<SPrecond>, first_scalar_pass and copy_matrix are provenance-recording stubs (first_scalar_pass: unit cpr_first_scalar_pass)',
+                 'A-det: SPrecond construction and first_scalar_pass are functions of their arguments (C10)',
+                 'A-own: shared_ptr lifetimes are not modelled'],
+    replay='composite', timeout=120,
+    not_decided=['block-valued instantiation (update_transfer(..., std::false_type))', 'that the pressure preconditioner P built for the old matrix is still adequate (by design it is NOT updated)'],
+)
+
+UNITS = [cpr_fsp, schur_counts, schur_fill, schur_blocks, schur_scatter, deflated, cpr_partial]
